@@ -556,6 +556,25 @@ fn gen_failing_reads(rng: &mut Rng, out: &mut Vec<Stmt>) {
     }
 }
 
+/// Failing statements whose identifiers contain words that an error classifier working on the
+/// message text might take for something else (the messages of compile errors embed identifiers).
+fn gen_keyword_bearing_failures(rng: &mut Rng, out: &mut Vec<Stmt>) {
+    const NAMES: [&str; 12] = ["wallet", "walker", "checkpoint", "checkpoint_id", "compatibility", "parser", "syntaxTree", "io_error_count", "disk_full", "permission_denied", "no_such_file", "expected_total"];
+    for _ in 0..3 {
+        let n = *rng.pick(&NAMES);
+        let (fam, text, updates) = match rng.below(7) {
+            0 => ("err:compile:undefined-variable-named", format!("MATCH (n) RETURN {n}.balance AS x"), Some(false)),
+            1 => ("err:compile:unknown-function-named", format!("RETURN {n}(1) AS x"), Some(false)),
+            2 => ("err:compile:rebinding-named", format!("MATCH ({n}) WITH {n} AS a, 1 AS {n}, 2 AS {n} RETURN a"), Some(false)),
+            3 => ("err:compile:type-conflict-named", format!("MATCH ({n})-[{n}]->() RETURN 1 AS x"), Some(false)),
+            4 => ("err:runtime:conversion-named", format!("WITH [1] AS {n} RETURN toBoolean({n}) AS x"), Some(false)),
+            5 => ("err:compile:write-undefined-variable-named", format!("CREATE (n:T) SET {n}.k = 1"), None),
+            _ => ("err:compile:delete-undefined-variable-named", format!("MATCH (n) DELETE {n}"), None),
+        };
+        out.push(Stmt { family: fam.into(), text, params: BTreeMap::new(), updates });
+    }
+}
+
 /// Token-level damage to a valid statement: what it contains is no longer known.
 fn mutate(rng: &mut Rng, s: &Stmt) -> Stmt {
     let toks: Vec<&str> = s.text.split(' ').collect();
@@ -1156,6 +1175,7 @@ fn one_case(seed: u64, k: usize, skip: &[usize], out: &mut CaseOut) {
     let mut reads = Vec::new();
     gen_reads(&mut rng, &g, &mut reads);
     gen_failing_reads(&mut rng, &mut reads);
+    gen_keyword_bearing_failures(&mut rng, &mut reads);
     let n_mut = 4;
     for _ in 0..n_mut {
         let i = rng.below(reads.len());
